@@ -15,11 +15,13 @@ func defaultAlgo(key string) string {
 	return k.AlgoNames()[0]
 }
 
-func rNone(u string) ra.Req          { return ra.Req{Method: "none", User: u} }
-func rPw(u, pw string) ra.Req        { return ra.Req{Method: "password", User: u, Password: pw} }
-func rKbd(u, ans string) ra.Req      { return ra.Req{Method: "keyboard-interactive", User: u, Kbd: ans} }
-func rUnknown(u string) ra.Req       { return ra.Req{Method: "vf-unknown", User: u} }
-func rQuery(u, key string) ra.Req    { return ra.Req{Method: "publickey", User: u, Key: key, Algo: defaultAlgo(key)} }
+func rNone(u string) ra.Req     { return ra.Req{Method: "none", User: u} }
+func rPw(u, pw string) ra.Req   { return ra.Req{Method: "password", User: u, Password: pw} }
+func rKbd(u, ans string) ra.Req { return ra.Req{Method: "keyboard-interactive", User: u, Kbd: ans} }
+func rUnknown(u string) ra.Req  { return ra.Req{Method: "vf-unknown", User: u} }
+func rQuery(u, key string) ra.Req {
+	return ra.Req{Method: "publickey", User: u, Key: key, Algo: defaultAlgo(key)}
+}
 func rQueryAlgo(u, key, algo string) ra.Req {
 	return ra.Req{Method: "publickey", User: u, Key: key, Algo: algo}
 }
@@ -42,7 +44,7 @@ func sibling(key string) string {
 }
 
 var sigKinds = []string{"valid", "flip", "otherkey", "session-flip", "session-zero", "user", "service", "algo-in-data", "blob-in-data", "nobool",
-	"hash-mismatch", "certalgo-plainkey", "plainalgo-certkey", "wrong-family", "foreign-format", "rsa-cross", "rsa-cross-512", "rsa-sha1"}
+	"hash-mismatch", "certalgo-plainkey", "plainalgo-certkey", "wrong-family", "foreign-format", "rsa-cross", "rsa-cross-512", "rsa-256-under-512", "rsa-sha1"}
 
 // rSigned builds a signed request of the given kind for (user, key).  Kinds
 // that do not apply to the key type fall back to the closest applicable one.
@@ -129,6 +131,11 @@ func rSigned(u, key, kind string) ra.Req {
 		if isRSA {
 			r.Algo, r.Sig.Format = ra.AlgoRSA256+cert, ra.AlgoRSA512
 		}
+	case "rsa-256-under-512":
+		// allowed algorithm name, signature format that a restricted PublicKeyAuthAlgorithms may not allow
+		if isRSA {
+			r.Algo, r.Sig.Format = ra.AlgoRSA512+cert, ra.AlgoRSA256
+		}
 	case "rsa-sha1":
 		if isRSA {
 			r.Algo, r.Sig.Format = ra.AlgoRSA+cert, ra.AlgoRSA
@@ -141,9 +148,9 @@ func rSigned(u, key, kind string) ra.Req {
 
 // ---- outcome helpers ----
 
-func acc(p string) ra.Outcome   { return ra.Outcome{Kind: "accept", Perms: p} }
-func rej() ra.Outcome           { return ra.Outcome{Kind: "reject"} }
-func part(n int) ra.Outcome     { return ra.Outcome{Kind: "partial", Next: n} }
+func acc(p string) ra.Outcome { return ra.Outcome{Kind: "accept", Perms: p} }
+func rej() ra.Outcome         { return ra.Outcome{Kind: "reject"} }
+func part(n int) ra.Outcome   { return ra.Outcome{Kind: "partial", Next: n} }
 func cb(rules map[string]ra.Outcome) ra.Callback {
 	return ra.Callback{Present: true, Rules: rules, Default: rej()}
 }
@@ -238,7 +245,7 @@ func alphabet() []ra.Req {
 		rKbd("u1", "right"), rKbd("u1", "wrong"),
 		rQuery("u1", "A"), rQuery("u1", "B"), rQuery("u2", "A"), rQuery("u1", "E"),
 		rSigned("u1", "A", "valid"), rSigned("u1", "B", "valid"), rSigned("u2", "A", "valid"), rSigned("u1", "E", "valid"),
-		rSigned("u1", "C", "valid"), rSigned("u1", "C", "rsa-cross-512"), rSigned("u1", "D", "valid"),
+		rSigned("u1", "C", "valid"), rSigned("u1", "C", "rsa-256-under-512"), rSigned("u1", "D", "valid"),
 		rSigned("u1", "A", "otherkey"), rSigned("u1", "A", "session-flip"), rSigned("u1", "A", "user"), rSigned("u1", "A", "flip"),
 		rSigned("u1", "A", "certalgo-plainkey"), rSigned("u1", "E", "plainalgo-certkey"), rSigned("u1", "C", "hash-mismatch"),
 		rSigned("u1", "D", "foreign-format"),
